@@ -46,6 +46,11 @@ fn finish_run(idx: u64, seed: u64, cfg: RunCfg, ops: Vec<Op>, mut w: World, mode
                     op_index: usize::MAX,
                 });
             }
+            if e.failed_ops.iter().any(|f| *f) {
+                out.stats.probe("control-run-compared");
+            } else {
+                out.stats.probe("control-run-not-needed(no-failed-call)");
+            }
             out.viol.extend(control_compare(&cfg, &ops, &e));
         },
         "twin" => {
@@ -53,6 +58,7 @@ fn finish_run(idx: u64, seed: u64, cfg: RunCfg, ops: Vec<Op>, mut w: World, mode
             for e in execs {
                 out.viol.extend(e.viol);
             }
+            out.stats.probe("twin-universes-compared");
             out.viol.extend(v);
         },
         _ => {},
@@ -109,7 +115,7 @@ pub fn sc_interop(idx: u64, seed: u64, _t: bool) -> RunOut {
 pub fn sc_honest(idx: u64, seed: u64, _t: bool) -> RunOut {
     let plan = Plan {
         scenario: "honest",
-        opts: CfgOpts::default(),
+        opts: CfgOpts { snow_keygen: 500, ..CfgOpts::default() },
         profile: honest_profile(),
         mode: "plain",
         warm_parallel: false,
@@ -204,7 +210,7 @@ pub fn sc_fail_retry_ledger(idx: u64, seed: u64, _t: bool) -> RunOut {
     let plan = Plan {
         scenario: "fail-retry-ledger",
         opts: CfgOpts { record: true, late_psk: 300, ..CfgOpts::default() },
-        profile: Profile { tr_rekey: 60, tr_rekey_sync: 40, ..fail_retry_profile() },
+        profile: Profile { tr_rekey: 60, tr_rekey_sync: 40, tr_nonce_explicit: 40, ..fail_retry_profile() },
         mode: "plain",
         warm_parallel: false,
     };
@@ -559,6 +565,11 @@ pub fn sc_chaos_keys(idx: u64, seed: u64, _t: bool) -> RunOut {
                 label.push_str("surplus");
             },
         }
+        if rng.chance(1, 6) {
+            let idx = *rng.pick(&[9u8, 10, 11, 100, 255]);
+            cfg.nodes[n].psks.push(PskCfg { idx, key: rng.bytes(32), at_boot: true });
+            label.push_str(&format!("+psk-slot{idx}"));
+        }
         if rng.chance(1, 4) {
             let pl = *rng.pick(&[0usize, 1, 65_535, 65_536, 100_000]);
             cfg.nodes[n].prologue = rng.bytes(pl);
@@ -714,6 +725,10 @@ pub fn boot_matrix_cfgs() -> Vec<RunCfg> {
                 }
                 variants.push(("fallback".into(), None));
                 variants.push(("psk0+psk1".into(), None));
+                variants.push(("psk0+fallback".into(), None));
+                variants.push(("fallback+psk0".into(), None));
+                variants.push(("psk1+fallback+psk0".into(), None));
+                variants.push(("psk1+psk0".into(), None));
                 for d in [Prim::Rng, Prim::Dh, Prim::Hash, Prim::Cipher] {
                     variants.push((String::new(), Some(d)));
                 }
@@ -826,11 +841,11 @@ pub fn check_table() -> Vec<Check> {
     const RULE: &str = "runs are generated by a seeded driver (stratified over 38 patterns x psk class x DH x cipher x hash by run index, everything else PRNG); a run is non-trivial if at least one injected fault fired (for fault-free scenarios: it completed a handshake), and distinct by hash of (configuration stratum, sequence of (phase, call, result) events)";
     vec![
         Check { id: "C01", level: "exploration", rule: RULE, enumerations: vec![], scens: vec![scen!("interop", sc_interop, 24_000, 600_000, 0x101), scen!("honest", sc_honest, 8_000, 200_000, 0x102)] },
-        Check { id: "C02", level: "exploration", rule: RULE, enumerations: vec![], scens: vec![scen!("honest", sc_honest, 24_000, 600_000, 0x201), scen!("interop", sc_interop, 8_000, 200_000, 0x202)] },
+        Check { id: "C02", level: "exploration", rule: RULE, enumerations: vec![], scens: vec![scen!("honest", sc_honest, 24_000, 600_000, 0x201), scen!("interop", sc_interop, 8_000, 200_000, 0x202), scen!("fail-retry", sc_fail_retry_ledger, 6_000, 100_000, 0x203)] },
         Check { id: "C03", level: "exploration", rule: RULE, enumerations: vec![], scens: vec![scen!("tamper-hs", sc_tamper_hs, 30_000, 800_000, 0x301), scen!("chaos", sc_chaos, 4_000, 100_000, 0x302)] },
         Check { id: "C04", level: "exploration", rule: RULE, enumerations: vec![], scens: vec![scen!("transport-auth", sc_transport_auth, 20_000, 500_000, 0x401), scen!("stateless", sc_stateless, 6_000, 100_000, 0x402)] },
         Check { id: "C05", level: "exploration", rule: RULE, enumerations: vec![], scens: vec![scen!("transport-sched", sc_transport_sched, 24_000, 600_000, 0x501), scen!("nonce", sc_nonce, 4_000, 100_000, 0x502)] },
-        Check { id: "C06", level: "exploration", rule: RULE, enumerations: vec![], scens: vec![scen!("fail-retry-ledger", sc_fail_retry_ledger, 24_000, 600_000, 0x601), scen!("chaos", sc_chaos, 6_000, 100_000, 0x602)] },
+        Check { id: "C06", level: "exploration", rule: RULE, enumerations: vec![], scens: vec![scen!("fail-retry-ledger", sc_fail_retry_ledger, 24_000, 600_000, 0x601), scen!("chaos", sc_chaos, 6_000, 100_000, 0x602), scen!("nonce", sc_nonce, 6_000, 100_000, 0x603)] },
         Check { id: "C07", level: "exploration", rule: RULE, enumerations: vec![], scens: vec![scen!("fail-retry-control", sc_fail_retry_control, 20_000, 500_000, 0x701), scen!("transport-sched", sc_transport_sched, 4_000, 100_000, 0x702)] },
         Check { id: "C08", level: "exploration", rule: RULE, enumerations: vec![], scens: vec![scen!("mismatch", sc_mismatch, 24_000, 600_000, 0x801), scen!("mismatch-cross", sc_mismatch_cross, 8_000, 200_000, 0x802)] },
         Check { id: "C09", level: "exploration", rule: RULE, enumerations: vec![], scens: vec![scen!("nonce", sc_nonce, 24_000, 600_000, 0x901), scen!("stateless", sc_stateless, 4_000, 100_000, 0x902)] },
